@@ -183,6 +183,17 @@ def add_dyn(tr, repo: Path, spec: dict) -> None:
             drows.append(f"{pat} => Datatypes.S {m_}")
     drows.append("| _ => O")
     tr.out.append(f"Fixpoint obj_depth (a : {NAME}) : nat :=\nmatch a with\n" + "\n".join(drows) + "\nend.")
+    # iterating a value: the NamedTuples give their fields; nothing else here is iterable (a str is: not modelled)
+    irows = []
+    for c, fs in ctors.items():
+        if c in py2v.NAMEDTUPLE_DYN:
+            xs = [f"x{i}" for i in range(len(fs))]
+            items = "; ".join((x if t == "any" else f"O_str {x}") for x, (f, t, _) in zip(xs, fs))
+            irows.append(f"| O_{c} " + " ".join(xs) + f" => Some [{items}]")
+    irows.append("| _ => None")
+    tr.out.append(f"Definition obj_items (a : {NAME}) : option (list {NAME}) :=\nmatch a with\n" + "\n".join(irows) + "\nend.")
+    tr.out.append(f"Fixpoint obj_items_all (l : list {NAME}) : option (list (list {NAME})) :=\nmatch l with\n| [] => Some []\n| a :: l' =>\n"
+                  "match obj_items a, obj_items_all l' with Some x, Some r => Some (x :: r) | _, _ => None end\nend.")
 
 
 def classes_with_field(f: str) -> list[str]:
